@@ -161,7 +161,7 @@ class C18(Prop):
                   'entry < 2^24 are part of the limits (the code truncates silently beyond).')
     design_ref = '§5 C18'
     rule = ('lists of 0..6 entries of all six kinds, MIME names well-known (every table row is used, as enum and as bytes), near misses of well-known names (other case, white space, one character off) or custom at lengths 1,2,127,128 and out-of-limit '
-            '0,129,200; tags at 0,1,254,255 and out-of-limit 256,300; credentials 0..70 bytes and at the byte boundaries of their length fields (user names of 255..65535 bytes, tokens and item contents of 255..70000 bytes); a third of the lists built through rsocket/extensions/helpers.py; routing entries and tag lists under other MIME types also built as TaggingMetadata with the type given as bytes, as a WellKnownMimeType value or as the enum member; batches re-run in a sub-process with cbitstruct blocked (struct fallbacks of frame_helpers.py); plus truncations / bit flips / random bytes of valid composites; '
+            '0,129,200; tags at 0,1,254,255 and out-of-limit 256,300; credentials 0..70 bytes and at the byte boundaries of their length fields (user names of 255..65535 bytes, tokens and item contents of 255..70000 bytes); a third of the lists built through rsocket/extensions/helpers.py; routing item objects that were encoded before with other tags and then given new ones (by assignment, in place, by parse()); routing entries and tag lists under other MIME types also built as TaggingMetadata with the type given as bytes, as a WellKnownMimeType value or as the enum member; batches re-run in a sub-process with cbitstruct blocked (struct fallbacks of frame_helpers.py); plus truncations / bit flips / random bytes of valid composites; '
             'non-trivial = at least two entries or a boundary length; distinct = distinct entry list / blob')
     assumptions = ['entries are built through the repo classes; a str-typed encoding is not generated (bytes and enum values are)']
 
@@ -234,8 +234,12 @@ class C18(Prop):
                 else:
                     items.append({'k': 'bearer', 't': bytes(rng.getrandbits(8) for _ in range(rng.choice([0, 1, 30, 300]))).hex()})
             out.append({'kind': 'enc', 'items': items, 'helpers': rng.random() < 0.35})
+        # tagging item objects with a history (encoded once with other tags, then given new ones by assignment, in place, or by parse())
+        for _ in range(150 if tier == 'quick' else 4000):
+            tg = lambda: [bytes(rng.getrandbits(8) for _ in range(rng.choice([1, 5, 12, 255]))).hex() for _ in range(rng.choice([1, 1, 2, 3]))]
+            out.append({'kind': 'enc', 'items': [{'k': 'route', 'tags': tg()}], 'helpers': False, 'history': {'first': tg(), 'how': rng.choice(['assign', 'extend', 'parse'])}})
         for _ in range(n // 2):
-            c = rng.choice(out[len(table):])
+            c = rng.choice([x for x in out[len(table):] if not x.get('history')])
             try:
                 blob = self._encode(c['items'])
             except Exception:
@@ -283,6 +287,28 @@ class C18(Prop):
                 return {k: ('FAIL' if isinstance(v, str) and v.startswith('FAIL:') else v) for k, v in o.items()}
             diffs = [{'case': c, 'cbitstruct': a, 'native': b} for c, a, b in zip(case['cases'], here, other) if canon(a) != canon(b)]
             return {'diffs': diffs[:5], 'n': len(here)}
+        if case['kind'] == 'enc' and case.get('history'):
+            # a tagging item *object* that was encoded before with other tags and then changed: its encoding is that of the tags it holds now
+            from rsocket.extensions.routing import RoutingMetadata
+            h = case['history']
+            want = [bytes.fromhex(t) for t in case['items'][0]['tags']]
+            it = RoutingMetadata([bytes.fromhex(t) for t in h['first']])
+            first = CompositeMetadata()
+            first.append(it)
+            first.serialize()
+            if h['how'] == 'assign':
+                it.tags = list(want)
+            elif h['how'] == 'extend':
+                it.tags = list(it.tags)
+                del it.tags[:]
+                it.tags.extend(want)
+            else:
+                it.parse(b''.join(bytes([len(t)]) + t for t in want))
+            cm = CompositeMetadata()
+            cm.append(it)
+            blob = bytes(cm.serialize())
+            back = CompositeMetadata().parse(blob)
+            return {'enc': blob.hex(), 'dec': dump_items(back.items), 're': bytes(back.serialize()).hex()}
         if case['kind'] == 'enc':
             try:
                 blob = bytes(self._encode(case['items'], case.get('helpers', False)))
